@@ -89,6 +89,12 @@ pub enum TOp {
     Close,
     /// whole close with the limit at the quoted amount (0), one above (1), one below (2)
     CloseLim(u64),
+    /// opposite order of (just above) the position's current value: the reversal closes it and re-opens
+    /// nothing, which leaves a stored record of size zero
+    FlatReverse,
+    /// order on the side opposite to a stored size-zero record's direction, with a base limit on the wrong
+    /// side of the quoted amount (0) or exactly at it (1)
+    AfterFlat(u64),
 }
 #[derive(Clone, Copy, Debug, PartialEq)]
 pub enum Who {
@@ -783,6 +789,26 @@ fn realize(w: &World, r: &mut Rng, g: &mut GenCtx, plan: &Plan, vis: &[VInfo], p
                     draft(trader, Msg::Withdraw { v: v.id, amt: (fc / 2).max(1) })
                 }
                 (TOp::Close, _) => draft(trader, Msg::Close { v: v.id, lim: 0 }),
+                (TOp::FlatReverse, Some(p)) if p.size != 0 => open(1 - p.dir, value(p) + lev / d + 1),
+                (TOp::AfterFlat(k), Some(p)) if p.size == 0 => {
+                    let side = 1 - p.dir;
+                    let notional = (v.q / 200).max(d);
+                    let mut dr = open(side, notional);
+                    let n = if let Msg::Open { margin, lev, .. } = &dr.msg { mul_div(*margin, *lev, d) } else { notional };
+                    let b = w
+                        .q::<Uint128, _>(&v.addr, &vamm::QueryMsg::InputAmount { direction: dirq(side), amount: Uint128::new(n) })
+                        .map(|x| x.u128())
+                        .unwrap_or(1);
+                    let want = match (k, side) {
+                        (0, 0) => b.saturating_add(1),
+                        (0, _) => b.saturating_sub(1).max(1),
+                        _ => b,
+                    };
+                    if let Msg::Open { lim, .. } = &mut dr.msg {
+                        *lim = want;
+                    }
+                    dr
+                }
                 (TOp::CloseLim(k), Some(p)) => {
                     let q = value(p);
                     let lim = match k {
@@ -1108,6 +1134,13 @@ fn start_config(w: &World, r: &mut Rng, g: &mut GenCtx, vis: &[VInfo], ps: &[Pos
         g.plan.push_back(Plan::TraderOp { vi, who: Who::Id(trader), op: TOp::CloseLim(r.range(1, 2)), block: Blk::Next });
         g.plan.push_back(Plan::TraderOp { vi, who: Who::Id(trader), op: TOp::CloseLim(0), block: Blk::Free });
         g.plan.push_back(Plan::TraderOp { vi, who: Who::Id(trader), op: TOp::OpenSame, block: Blk::Free });
+    }
+    if !holders.is_empty() && r.chance(1, 3) {
+        // a position closed by an equal-size reversal leaves a stored record of size zero; the next order on
+        // the other side is an OPEN and must honour the caller's base limit
+        g.plan.push_back(Plan::TraderOp { vi, who: Who::Id(trader), op: TOp::FlatReverse, block: Blk::Next });
+        g.plan.push_back(Plan::TraderOp { vi, who: Who::Id(trader), op: TOp::AfterFlat(0), block: Blk::Next });
+        g.plan.push_back(Plan::TraderOp { vi, who: Who::Id(trader), op: TOp::AfterFlat(1), block: Blk::Free });
     }
     let mut unwire: Vec<(u64, CKind)> = vec![]; // (due after this many further updates, kind)
     let _ = w;
